@@ -164,7 +164,10 @@ def one_model(ctx, prog, script, rng):
                 call_opts['offset'] = off       # seeds the endogenous variables of period t from t+offset: still only period t may change
             with ref.quiet():
                 try:
-                    res['ret'] = m.solve_period(m.span[tn], **call_opts) if entry == 'solve_period' else m.solve_t(t, **call_opts)
+                    # the position may be an integer of another integer type (np.flatnonzero, np.argmax, ... hand back NumPy integers)
+                    t_arg = rng.choice([t, t, np.int64(t), np.int32(t), np.intp(t)])
+                    case['t_type'] = type(t_arg).__name__
+                    res['ret'] = m.solve_period(m.span[tn], **call_opts) if entry == 'solve_period' else m.solve_t(t_arg, **call_opts)
                 except Exception as e:
                     res['exc'] = e
             m.__dict__['v_log'].enabled = False
